@@ -66,7 +66,9 @@ def run_window(flavour, fmt, counts, workdir, reconnecting=False):
     file, need_save at the end, exception name or None)."""
     import asyncio
     tick, p0, p1, p2, p3, p4, p5 = counts
-    path = os.path.join(workdir, f"win.{fmt}")
+    store = os.path.join(workdir, "store")
+    os.makedirs(store, exist_ok=True)
+    path = os.path.join(store, f"win.{fmt}")
     for p in (path, path + ".bak"):
         if os.path.exists(p):
             os.remove(p)
@@ -107,9 +109,20 @@ def run_window(flavour, fmt, counts, workdir, reconnecting=False):
     exc = None
     try:
         pump(gw, p0)
-        if tick:
+        if tick == 1:
             during[0] = p1
             pers.save_sensors()
+        elif tick == 2:
+            # the storage is away for this one periodic save (unmounted, directory missing): nothing can be
+            # written, the network stays marked unsaved, the lines are handled all the same
+            os.rename(store, store + ".away")
+            try:
+                during[0] = p1
+                pers.save_sensors()
+            except OSError:
+                pass
+            finally:
+                os.rename(store + ".away", store)
         in_stop[0] = True
         if flavour == "sync":
             gw.stop()
@@ -152,25 +165,77 @@ def model_line(counts):
     def procs(n):
         return [f"proc{next(k)}" for _ in range(n)]
     evs = procs(p0)
-    if tick:
+    if tick == 1:
         evs += ["saveStart"] + procs(p1) + ["saveEnd"]
+    elif tick == 2:
+        evs += procs(p1)            # a save that could not write: nothing saved, nothing marked saved
     evs += procs(p2) + ["disconnect"] + procs(p3) + ["saveStart"] + procs(p4) + ["saveEnd"] + procs(p5)
     return "STOPRUN " + " ".join(evs)
 
 
 def windows(tier):
     top = 2 if tier == "quick" else 3
-    for tick in (0, 1):
+    for tick in (0, 1, 2):
         for c in itertools.product(range(top), repeat=6):
             if not tick and c[1]:
                 continue
+            if tick == 2 and (c[3] or c[4] or c[5]):
+                continue            # the unavailable-storage tick is combined with work before / at the disconnect only
             yield (tick,) + c
+
+
+def timer_thread_check(res, workdir):
+    """The threaded flavour's periodic save runs on a threading.Timer thread.  The interpreter waits for
+    non-daemon threads at exit, so a save that is writing when the program ends (after a clean stop()) is
+    completed; on a daemon thread it would be abandoned with need_save already cleared."""
+    import mysensors.task as task_mod
+    created = []
+
+    class RecTimer:
+        def __init__(self, interval, function, args=None, kwargs=None):
+            self.interval, self.function, self.daemon, self.started = interval, function, False, False
+            created.append(self)
+
+        def start(self):
+            self.started = True
+
+        def cancel(self):
+            pass
+
+    class Proxy:
+        Timer = RecTimer
+
+        def __getattr__(self, name):
+            return getattr(real, name)
+    real = task_mod.threading
+    task_mod.threading = Proxy()
+    try:
+        gw, _conn = make("sync", os.path.join(workdir, "timer.json"))
+        gw.tasks.persistence.schedule_save_sensors()
+    finally:
+        task_mod.threading = real
+    res.evaluations += 1
+    res.count("timer-thread-check")
+    rep = {"op": "timer-thread"}
+    if not created or not created[-1].started:
+        res.oracle_failures.append({"key": {"kind": "save-schedule-not-armed"}, "replay": rep,
+                                    "what": "schedule_save_sensors() did not arm a timer for the next periodic save"})
+    elif created[-1].daemon:
+        res.oracle_failures.append({
+            "key": {"kind": "save-timer-is-daemon"}, "replay": rep,
+            "what": "the periodic save runs on a daemon timer thread: a save still writing when the program ends "
+                    "after stop() is abandoned with need_save already cleared, and what it was writing is lost"})
 
 
 def part(res, prop, driver, tier):
     """Adds to `res` (the property's Result)."""
     work = tempfile.mkdtemp(prefix="verif-stopwin-")
     lines, impl, cases = ["STOPSCRIPT"], [None], [None]
+    try:
+        timer_thread_check(res, work)
+    except Exception as e:  # noqa: BLE001
+        res.oracle_failures.append({"key": {"kind": "timer-thread-check-raised"}, "replay": {"op": "timer-thread"},
+                                    "what": f"arming the periodic save raised {type(e).__name__}: {e}"})
     try:
         for flavour in ("sync", "async"):
             for fmt in ("json", "pickle"):
@@ -196,7 +261,7 @@ def part(res, prop, driver, tier):
                         res.oracle_failures.append({
                             "key": dict(key, what="handed-not-saved"), "replay": rep,
                             "what": f"{flavour} gateway, {fmt}: ids {lost} went out on the wire but are not in the file "
-                                    f"stop() left (order of stop's actions: {order}; periodic save first: {bool(counts[0])}; "
+                                    f"stop() left (order of stop's actions: {order}; periodic save first: {['no', 'yes', 'yes, storage unavailable'][counts[0]]}; "
                                     f"id requests before / while the periodic save writes / at the disconnect / before "
                                     f"the final save / while it writes / after stop = {counts[1:]})"})
                     lines.append(model_line(counts))
@@ -228,6 +293,16 @@ def part(res, prop, driver, tier):
 
 
 def replay(r):
+    if r.get("op") == "timer-thread":
+        from .common import Result
+        res = Result()
+        work = tempfile.mkdtemp(prefix="verif-stopwin-")
+        try:
+            timer_thread_check(res, work)
+        finally:
+            shutil.rmtree(work, ignore_errors=True)
+        print(res.oracle_failures or "pass")
+        return 1 if res.oracle_failures else 0
     work = tempfile.mkdtemp(prefix="verif-stopwin-")
     try:
         order, handed, in_file, dirty, exc = run_window(r["flavour"], r["fmt"], tuple(r["counts"]), work,
